@@ -237,8 +237,11 @@ class GMRES:
         self.H = npc.Array.from_ndarray_trivial(np.zeros((self.N_max + 1, self.N_max)) * 1.0j)
 
     def run(self):
-        if self.total_error[0][0] < self.res:
-            return self.x, self.total_error[0][0], self.total_error, self.total_iters
+        if self.total_error[-1][-1] < self.res:
+            # nothing (more) to do: the initial guess or the iterate of a previous run() is good enough.
+            # (Entering the loop again would add the last correction to `x` a second time.)
+            res = npc.norm(self.A.matvec(self.x) - self.b) / self.b_norm
+            return self.x, res, self.total_error, self.total_iters
         for _ in range(self.restart):
             converged = False
             for k in range(0, self.N_max):
